@@ -63,6 +63,11 @@ M = [
  ('C10-m7', 'C10', CORE + 'entities/json/value.rs', '                check_for_reserved_keys(record.keys())?;\n', ''),
  ('C10-m8', 'C10', CORE + 'entities/json/value.rs', '                set.iter()\n                    .cloned()\n                    .map(Self::from_value)', '                set.iter()\n                    .take(1)\n                    .cloned()\n                    .map(Self::from_value)'),
  ('C10-m9', 'C10', CORE + 'entities/json/value.rs', '                    [ref expr] => Ok(Self::ExtnEscape {\n                        __extn: FnAndArgs::Single {\n                            ext_fn: ext_func.to_smolstr(),', '                    [ref expr] => Ok(Self::ExtnEscape {\n                        __extn: FnAndArgs::Single {\n                            ext_fn: ext_func.basename().to_smolstr(),'),
+ ('C09-m1', 'C09', CORE + 'validator/cedar_schema/to_json_schema.rs', '            attributes: fields.into_iter().map(convert_attr_decl).collect(),\n            additional_attributes: false,', '            attributes: fields.into_iter().map(convert_attr_decl).collect(),\n            additional_attributes: true,'),
+ ('C09-m2', 'C09', CORE + 'validator/cedar_schema/to_json_schema.rs', '            required: attr.node.data.required,', '            required: true,'),
+ ('C09-m3', 'C09', CORE + 'validator/cedar_schema/to_json_schema.rs', '        resource_types: resource_types\n            .map(|node| node.node)\n            .ok_or_else(|| ToJsonSchemaError::no_resource(&name, name_loc.cloned()))?,\n        principal_types: principal_types\n            .map(|node| node.node)', '        resource_types: principal_types.clone()\n            .map(|node| node.node)\n            .ok_or_else(|| ToJsonSchemaError::no_resource(&name, name_loc.cloned()))?,\n        principal_types: principal_types\n            .map(|node| node.node)'),
+ ('C09-m4', 'C09', CORE + 'validator/cedar_schema/to_json_schema.rs', '        Type::Set(t) => json_schema::TypeVariant::Set {\n            element: Box::new(cedar_type_to_json_type(*t)),\n        },', '        Type::Set(t) => return cedar_type_to_json_type(*t),'),
+ ('C09-m5', 'C09', CORE + 'validator/cedar_schema/to_json_schema.rs', '        context: context.map(|c| c.node).unwrap_or_default(),', '        context: context.filter(|_| false).map(|c| c.node).unwrap_or_default(),'),
  ('C17-m1', 'C17', CORE + 'validator/entity_manifest.rs', '            if matches!(op, BinaryOp::In) {', '            if false && matches!(op, BinaryOp::In) {'),
  ('C17-m2', 'C17', CORE + 'validator/entity_manifest.rs', '            .union(entity_manifest_from_expr(then_expr)?)\n            .union(entity_manifest_from_expr(else_expr)?)),', '            .union(entity_manifest_from_expr(then_expr)?)),'),
  ('C17-m3', 'C17', CORE + 'validator/entity_manifest.rs', '        ExprKind::HasAttr { expr, attr } => Ok(entity_manifest_from_expr(expr)?\n            .get_or_has_attr(attr)\n            .empty_paths()),', '        ExprKind::HasAttr { expr, attr: _ } => Ok(entity_manifest_from_expr(expr)?\n            .empty_paths()),'),
